@@ -388,6 +388,7 @@ func errClass(err error) string {
 func RunC14(c *Ctx) {
 	L := c.Pick(5, 6)
 	enumWorkload(c, L, func(s string) { CheckC14(c, s) })
+	c14Words(c)
 	lexExtras(c, c.Pick(400_000, 8_000_000), func(s string) {
 		CheckC14(c, s)
 		if c.Res.Evals%50000 == 1 {
